@@ -26,7 +26,7 @@ def queries(tier):
     if tier == 'thorough': seqs += [(2, 0x54, None), (2, 0x46, None), (3, 0x654, None), (3, 0x210, None)]
     F1 = ['%s:1' % F]
     pd = [Query('plannerdata_marks[seq=%x%s]' % (sq, ',order=%x' % o if o else ''), 'C09_pdata.cpp', 'harness_marks', tus=['src/ompl/base/src/PlannerData.cpp'],
-                defines=dict({'NOPS': k, 'SEQ': sq}, **({'IDXORD': o} if o else {})), unwind=5, unwindset=us + F1, timeout=to, checks='none',
+                defines=dict({'NOPS': k, 'SEQ': sq}, **({'IDXORD': o} if o else {})), unwind=9, unwindset=us + F1, timeout=to, checks='none', extra_cbmc=('-DVT_BOUNDED_MEMMOVE',),
                 bound='mark sequence %x (hex digit k: state | 4*goal, state 3 is not a vertex) on 3 vertices with %s' % (sq, ('indices %x (hex digits, case split over the order)' % o) if o else 'ARBITRARY distinct indices in [0,7]'))
           for k, sq, o in seqs]
     pd.append(Query('plannerdata_marks[ops=1]', 'C09_pdata.cpp', 'harness_marks', tus=['src/ompl/base/src/PlannerData.cpp'], defines={'NOPS': 1}, unwind=5, unwindset=us, timeout=to, checks='none',
